@@ -111,7 +111,27 @@ fn exec(p: P, keys: &Keys) -> ExecEnd {
             })
             .collect(),
     );
-    let model = Arc::new(StdMutex::new(Model { sets: vec![BTreeSet::new()], ..Model::default() }));
+    // The table starts with 0-2 channels (never full), so that readers hold
+    // cached keys from the first moment.
+    let mut init = Model { sets: vec![BTreeSet::new()], ..Model::default() };
+    let pre = (sim::rand_below(3) as usize).min(p.cap - 1);
+    let mut first_id: Option<u64> = None;
+    for k in 0..pre {
+        let seal = k == 0;
+        let r = if seal {
+            writer.add(Shm::seal_side(&keys[k]), keys[k].label, keys[k].opener)
+        } else {
+            writer.add(Shm::open_side(&keys[k]), keys[k].label, keys[k].sealer)
+        };
+        let id = r.unwrap_or_else(|e| vcommon::harness_error(&format!("C42 setup add: {e}")));
+        let idn = id_u64(id);
+        init.used.insert(idn);
+        init.sets[0].insert(idn);
+        init.live.push((id, k, seal));
+        first_id = Some(first_id.map_or(idn, |f: u64| f.max(idn)));
+    }
+    let initial_live = init.live.clone();
+    let model = Arc::new(StdMutex::new(init));
 
     let mut hs = Vec::new();
     {
@@ -121,7 +141,7 @@ fn exec(p: P, keys: &Keys) -> ExecEnd {
         let cap = p.cap;
         hs.push(shuttle::thread::spawn(move || {
             let t = 100;
-            let mut last_id: Option<u64> = None;
+            let mut last_id: Option<u64> = first_id;
             for _ in 0..ops {
                 if sim::has_violation() {
                     return;
@@ -282,6 +302,7 @@ fn exec(p: P, keys: &Keys) -> ExecEnd {
     for (t, st) in readers.into_iter().enumerate() {
         let model = Arc::clone(&model);
         let msgs = Arc::clone(&msgs);
+        let initial_live = initial_live.clone();
         let n = p.reader_ops;
         hs.push(shuttle::thread::spawn(move || {
             let client = Client::new(st);
@@ -289,11 +310,27 @@ fn exec(p: P, keys: &Keys) -> ExecEnd {
             let mut seal_ctx: Vec<(LocalChannelId, <<Shm as Backend>::R as AfcState>::SealCtx)> = Vec::new();
             let mut open_ctx: Vec<(LocalChannelId, usize, <<Shm as Backend>::R as AfcState>::OpenCtx)> = Vec::new();
             let mut sealed_ids: BTreeSet<u64> = BTreeSet::new();
+            for (id, k, seal) in &initial_live {
+                if *seal {
+                    if t == 0 && sealed_ids.insert(id_u64(*id)) {
+                        if let Ok(c) = client.setup_seal_ctx(*id) {
+                            seal_ctx.push((*id, c));
+                        }
+                    }
+                } else if let Ok(c) = client.setup_open_ctx(*id) {
+                    open_ctx.push((*id, *k, c));
+                }
+            }
             for _ in 0..n {
                 if sim::has_violation() {
                     return;
                 }
-                let op = sim::rand_below(5);
+                let op = match sim::rand_below(10) {
+                    0..=3 => 0,
+                    4 | 5 => 2,
+                    6 | 7 => 3,
+                    _ => 4,
+                };
                 let r = sim::quiet_catch(|| -> Result<(), (String, String)> {
                     match op {
                         // ---- table snapshot, as seal/open/exists consult it
@@ -431,8 +468,8 @@ impl Check for C42 {
 
     fn budget(&self, tier: vcommon::Tier) -> (u64, usize) {
         match tier {
-            vcommon::Tier::Quick => (640, 40),
-            vcommon::Tier::Thorough => (6400, 40),
+            vcommon::Tier::Quick => (1000, 80),
+            vcommon::Tier::Thorough => (10000, 80),
         }
     }
 
